@@ -130,6 +130,9 @@ class _ClientSock:
     def connect(self, a):
         pass
 
+    def settimeout(self, t):      # the real client bounds its wait for the answer (repo fix of Executor.terminate)
+        pass
+
     def send(self, b):
         self.req = bytes(b)
 
